@@ -31,19 +31,23 @@ RULE = ("seeded generator over routine {participation_ratio, local_vector_alignm
 TRUSTED_BASE = [
     "Lean 4.33 kernel; axioms propext, Classical.choice, Quot.sound only; Mathlib ℝ, ℂ, Real.sqrt, Complex.exp as the meaning of the statements",
     "numpy reductions (.sum, .mean, np.dot, np.cross, np.linalg.norm, np.square, np.abs) modelled by exact sums / their algebraic definition; "
-    "float64 ≈ ℝ validated by the correspondence (1e-9 exact-ℚ ops, 1e-7 Float ops), not proved",
+    "float64 ≈ ℝ validated by the correspondence (1e-9 exact-ℚ ops, 5e-7 Float ops after the double round(8)), not proved",
     "remove_pbc reused from the C02 model (np.linalg.inv, np.rint contracts); rint decisions guarded by an exact margin ≥ 1e-6",
     "read_neighbors is input data here (neighbour table written in its documented file format; modelled by C05)",
     "cos/sin/√/π evaluated in Lean Float in the driver; in the theorems e^{-iθ} is Complex.exp and √ is Real.sqrt (only √x·√x = x, x ≥ 0 is used)",
-    "pandas DataFrame.round(8) (applied twice to the decomposition tables) is modelled as the identity: compared at 1e-7 absolute; "
-    "groupby(|q| rounded) is modelled by grouping on the exact rational key Σ(n_k/L_k)², guarded: distinct keys ≥ 1e-5 apart (relative), |q|·1e8 ≥ 1e-3 from a rounding tie",
+    "pandas DataFrame.round(8) (applied twice to the decomposition tables) is modelled as the identity: compared at 5e-7; "
+    "groupby(|q| rounded) is modelled by grouping on the exact rational key Σ(n_k/L_k)², guarded: distinct keys ≥ 1e-4 apart (relative), |q|·1e8 ≥ 1e-3 from a rounding tie",
     "conditional_sq (sq.py, vector branch) is modelled locally as Σ_i A_i e^{-iq·r_i}/√N; time_correlation (two-index branch) locally as the origin loop",
     "hand-written model tied to vector.py by this harness; the Python oracle in harness/corr/C15.py (exact rational / cmath) states the property for the search",
 ]
 
 EXACT_TOL = 1e-9
-FLOAT_TOL = 1e-7
+# Fourier tables: the model evaluates cos/sin/√ in Float (1e-7) and the real tables went through DataFrame.round(8)
+# twice (each ±5e-9, amplified by 2|X|·d in the spectra): 5e-7·max(1,|a|,|b|) bounds both
+FLOAT_TOL = 5e-7
 MON_TOL = 2e-6
+GAP_MIN = 1e-4      # relative gap between distinct |q|² keys below which the groupby is not judged
+TIE_MIN = 1e-3      # distance of |q|·1e8 from a rounding tie below which the groupby is not judged
 
 
 # ----------------------------------------------------------------------------- helpers
@@ -650,11 +654,11 @@ def _guard_groups(groups):
     """are the |q| groups safely separated and away from a round(8) tie?"""
     keys = sorted(groups)
     for a, b in zip(keys, keys[1:]):
-        if (b - a) / b < Fraction(1, 10 ** 5):
+        if (b - a) / b < Fraction(1, 10 ** 4):
             return False
     for k in keys:
         q = 2 * math.pi * math.sqrt(float(k)) * 1e8
-        if abs((q - math.floor(q)) - 0.5) < 1e-3:
+        if abs((q - math.floor(q)) - 0.5) < TIE_MIN:
             return False
     return True
 
@@ -801,7 +805,7 @@ def compare(c, line, real):
     if op == "dec":
         parts = [p.split() for p in line.split("|")]
         margin, gap = bits2float(parts[0][0]), bits2float(parts[0][1])
-        if margin < 1e-3 or gap < 1e-5:
+        if margin < TIE_MIN or gap < GAP_MIN:
             return True, None, False
         d, nq = c["d"], len(c["q"])
         if real["cols"] != real["want"]:
@@ -835,7 +839,7 @@ def compare(c, line, real):
     if op == "corr":
         parts = [p.split() for p in line.split("|")]
         margin, gap, lin = bits2float(parts[0][0]), bits2float(parts[0][1]), parts[0][2] == "1"
-        if margin < 1e-3 or gap < 1e-5:
+        if margin < TIE_MIN or gap < GAP_MIN:
             return True, None, False
         d, nq, T = c["d"], len(c["q"]), c["T"]
         if lin != is_linear(c["ts"]):
@@ -909,7 +913,7 @@ def run_cases(run, cases):
     return disagreements, monitor_fail
 
 
-QUICK = {"pr": 60, "nb": 60, "dc": 80, "vib": 40, "dec": 80, "corr": 40}
+QUICK = {"pr": 150, "nb": 150, "dc": 250, "vib": 100, "dec": 250, "corr": 120}
 THOROUGH = {"pr": 1500, "nb": 1500, "dc": 2500, "vib": 800, "dec": 2500, "corr": 1000}
 
 
